@@ -161,6 +161,9 @@ func (g *gen) app(name string, style string, big bool) aApp {
 		default:
 			td.Kind = "alias"
 			t := g.typ(names[:i], true, false, i == 0)
+			if t.Prim == "string(10)" { // an alias body takes no constraint
+				t.Prim = "string"
+			}
 			td.Alias = &t
 		}
 		a.Types = append(a.Types, td)
